@@ -84,10 +84,14 @@ def theorem_names(path):
 
 # modules that state theorems ABOUT a property but sit above its module in the import graph (the abstract specification and
 # its refinement theorem import C03): built and audited together with the property module
-EXTRA_MODULES = {pid: ["CachedProofs.Spec.Refine"] for pid in ("C02", "C03", "C04", "C09")}
+EXTRA_MODULES = {pid: ["CachedProofs.Spec.Refine", "CachedProofs.Spec.RefineB"] for pid in ("C02", "C03", "C04", "C09")}   # RefineB: the refinement for ALL interleavings
 EXTRA_MODULES["C03"] = EXTRA_MODULES["C03"] + ["CachedProofs.LayerB.Entries"]       # C03 / C07 at action granularity
 EXTRA_MODULES["C07"] = ["CachedProofs.LayerB.Entries"]
 EXTRA_MODULES["C05"] = ["CachedProofs.LayerB.EvictId", "CachedProofs.LayerB.Bijection"]                                 # D11: the sweeper releases only the entry of the id it evicts
+EXTRA_MODULES["C08"] = ["CachedProofs.LayerB.Upsert"]                                   # C08 at action granularity
+EXTRA_MODULES["C09"] = EXTRA_MODULES["C09"] + ["CachedProofs.LayerB.Expiry"]            # C09 at action granularity
+EXTRA_MODULES["C10"] = ["CachedProofs.Spec.RefineB"]                                    # sweptLive: what the sweeper may remove under interleaving
+EXTRA_MODULES["C17"] = ["CachedProofs.LayerB.NoPanic"]                                  # C17 at action granularity
 EXTRA_MODULES["C16"] = ["CachedProofs.LayerB.StatsTheorems"]                          # C16 at action granularity
 
 
@@ -149,7 +153,7 @@ def proof_check(pid, thorough):
         rc, out, dt = sh(["lake", "env", "lean", audit], cwd=LEAN, timeout=1200)
     res["wall"] += dt
     cur = None
-    text = out.replace("\n  ", " ")
+    text = re.sub(r"\n[ \t]+", " ", out)   # a long name makes the list wrap, with one or two blanks of indentation
     for line in text.splitlines():
         m = re.match(r"'(.+)' depends on axioms: \[(.*)\]", line)
         if m:
